@@ -512,10 +512,23 @@ func (rn *runner) untypedTie(text string, maxCount int) {
 	rn.o.Count("json:untyped:tie:" + strings.Fields(obs)[0])
 }
 
+// lastUntypedPanic: what the last panicking FromJSON said (to name the failure precisely).
+var lastUntypedPanic string
+
+// untypedPanicKey: a key over MaxKeySize bytes still makes Map.Add panic (not touched by fix ea79830); any other
+// panic of FromJSON is a regression of that fix or something new.
+func untypedPanicKey() string {
+	if strings.Contains(lastUntypedPanic, "map key") {
+		return "itemjson-untyped-key-panic"
+	}
+	return "itemjson-untyped-panic"
+}
+
 func decodeUntyped(text string, best bool) (obs string) {
 	defer func() {
 		if p := recover(); p != nil {
 			obs = "panic"
+			lastUntypedPanic = fmt.Sprint(p)
 		}
 	}()
 	v, err := stackitem.FromJSON([]byte(text), stackitem.MaxDeserialized, best)
@@ -537,7 +550,7 @@ func (rn *runner) jsonUntyped(k int, r *prng.R, it stackitem.Item) {
 	}
 	best := r.Bool()
 	if obs := decodeUntyped(text, best); obs == "panic" {
-		o.Fail("itemjson-untyped-panic", k, "FromJSON(bestIntPrecision=%v) panics on %s", best, trunc(text, 120))
+		o.Fail(untypedPanicKey(), k, "FromJSON(bestIntPrecision=%v) panics (%s) on %s", best, lastUntypedPanic, trunc(text, 120))
 	} else {
 		o.Count("json:untyped:" + strings.Fields(obs)[0])
 	}
@@ -572,7 +585,7 @@ func (rn *runner) jsonUntyped(k int, r *prng.R, it stackitem.Item) {
 	// ToJSON of an item made of integers within ±MaxAllowedInteger, UTF-8 strings, booleans, arrays, maps reads back
 	if j, err := stackitem.ToJSON(it); err == nil {
 		if obs := decodeUntyped(string(j), best); obs == "panic" {
-			o.Fail("itemjson-untyped-panic", k, "FromJSON panics on the output of ToJSON: %s", trunc(string(j), 120))
+			o.Fail(untypedPanicKey(), k, "FromJSON panics (%s) on the output of ToJSON: %s", lastUntypedPanic, trunc(string(j), 120))
 		} else if obs == "err" && !keysCollide(it, 0) {
 			// (the untyped form writes map keys as strings: two different keys with the same bytes — Integer 0 and
 			// an empty ByteString — become one property name, which FromJSON refuses as a duplicate: by design)
@@ -621,7 +634,7 @@ func jsonCorpus() []corpusCase {
 		for _, t := range []string{"1e100", "[1e77]", `{"a":1` + strings.Repeat("0", 80) + `}`, `{"` + strings.Repeat("k", 65) + `":1}`} {
 			for _, best := range []bool{false, true} {
 				if decodeUntyped(t, best) == "panic" {
-					rn.o.Fail("itemjson-untyped-panic", k, "FromJSON(bestIntPrecision=%v) panics on %s", best, trunc(t, 100))
+					rn.o.Fail(untypedPanicKey(), k, "FromJSON(bestIntPrecision=%v) panics (%s) on %s", best, lastUntypedPanic, trunc(t, 100))
 				}
 			}
 		}
